@@ -287,7 +287,8 @@ func c02ReaderFacts(s *c02Src) (shortHdr, tornData Tri, where string) {
 			}
 		}
 		// site 1: a comparison of CompressedSize with what is left of the file, before the allocation
-		if ifs.Init == nil && strings.Contains(cond, "CompressedSize") && strings.Contains(cond, ">") {
+		if ifs.Init == nil && strings.Contains(cond, "CompressedSize") && strings.Contains(cond, ">") &&
+			strings.Contains(cond, "remaining") && tornData == Unknown {
 			hasPre = true
 			if len(ifs.Body.List) == 1 {
 				switch s.r.Str(ifs.Body.List[0]) {
@@ -310,9 +311,11 @@ func c02ReaderFacts(s *c02Src) (shortHdr, tornData Tri, where string) {
 			}
 		}
 	}
-	// both sites decide how a short payload is reported: they must agree
-	if hasPre && pre != tornData {
-		tornData = Unknown
+	// With a size pre-check in front of the allocation every short payload is reported there (the
+	// ReadFull behind it can only fail with a genuine I/O error), so the pre-check alone decides;
+	// without one the ReadFull error branch decides.  `yes` iff every short-payload path returns io.EOF.
+	if hasPre {
+		tornData = pre
 	}
 	return
 }
